@@ -83,6 +83,11 @@ pub struct Model {
     pub pending: Option<u64>,
     pub peer: Option<u64>,
     pub next_peer: u64,
+    /// highest offset the receiver has claimed for the CURRENT file (acks for this file, uncapped, and
+    /// accepted resumes) since the last advance: the implementation's acknowledged offset can never be above
+    /// it, or credit was released by something that is not an acknowledgement for this file. Oracle memory
+    /// only: not part of the canonical state (each check runs on a real history with its own value).
+    pub claim_high: u64,
     /// true while every send so far followed the documented loop
     pub loop_only: bool,
     pub last_chunk: u64,
@@ -104,6 +109,7 @@ impl Model {
             next_peer: 1,
             loop_only: true,
             last_chunk: 0,
+            claim_high: 0,
         }
     }
     pub fn emitted_end(&self) -> u64 {
@@ -544,6 +550,7 @@ impl<'a> Run<'a> {
                     }
                 }
                 if *file == self.m.file {
+                    self.m.claim_high = self.m.claim_high.max(*off);
                     let capped = (*off).min(self.m.sent);
                     if *off > self.m.sent {
                         self.flags |= F_ACK_CAPPED;
@@ -558,6 +565,7 @@ impl<'a> Run<'a> {
                 self.m.file = *f;
                 self.m.sent = 0;
                 self.m.acked = 0;
+                self.m.claim_high = 0;
                 self.m.pushed.clear();
                 self.m.ring_start = 0;
                 self.m.pending = None;
@@ -612,6 +620,8 @@ impl<'a> Run<'a> {
                             self.fail(Which::C13, "C13:resume-peer", format!(
                                 "peer() is {p:?} after an accepted resume installing peer {id}"));
                         }
+                        // an accepted resume is the receiver's claim to hold everything below `off`
+                        self.m.claim_high = self.m.claim_high.max(*off);
                         // exact model
                         if self.m.cancelled.is_none() && *file == self.m.file && self.m.covers(*off) {
                             self.m.peer = Some(id);
@@ -737,6 +747,11 @@ impl<'a> Run<'a> {
         if o.acked > o.sent {
             self.fail(Which::C11, "C11:acked-exceeds-sent", format!(
                 "acked {} > sent {}", o.acked, o.sent));
+        }
+        if o.acked > self.m.claim_high {
+            self.fail(Which::C11, "C11:credit-released-without-ack-for-this-file", format!(
+                "acknowledged offset is {} (sent {}), but the highest offset the receiver has acknowledged (or resumed at) for the current file {} is {}",
+                o.acked, o.sent, self.m.file, self.m.claim_high));
         }
         match (self.m.cancelled, &o.reason, o.cancelled) {
             (Some(r0), Some(r), true) if r == r0 => {}
